@@ -7,7 +7,7 @@ import symex
 META = {
     "level": "model_checking",
     "bounds": {
-        "quick": "noop backend: every history of <=3 operations over 21 concrete operations (register f_i into owner o_j, unregister, move-assign, "
+        "quick": "noop backend: every history of <=3 operations over 24 concrete operations (register f_i into owner o_j, unregister, move-assign, self-move-assign, "
                  "move-construct+destroy) on 3 functions x 3 owners, followed by a dispatch through every live entry point and destruction of all owners; "
                  "65 registrations on the 64-entry table; owner operations after destroy_sandbox",
         "thorough": "histories of <=4 operations (depth-4 histories start with a registration; a first operation on empty owners is a no-op and is covered at depth 3); dylib histories of <=3 operations",
@@ -16,7 +16,7 @@ META = {
                "(depth 3); re-creation after destroy is covered by C14",
     "assumptions": ["operation choice per step is the only symbolic input; everything else on a path is concrete"],
 }
-NOPS = 21
+NOPS = 24
 NOOP = ('#define RLBOX_USE_STATIC_CALLS() rlbox_noop_sandbox_lookup_symbol\n#define BACKEND_HEADER "C13_noop.hpp"\n'
         '#define NSBX rlbox::rlbox_noop_sandbox\n#define CREATE_SB(sb) sb.create_sandbox()\n')
 
@@ -37,8 +37,10 @@ def simulate(ops):
             a, b = [(0, 1), (0, 2), (1, 0), (1, 2), (2, 0), (2, 1)][op - 12]
             own[a] = own[b]
             own[b] = None
-        else:
+        elif op <= 20:
             own[op - 18] = None
+        else:
+            pass                                 # self-move-assignment
         hist.append(list(own))
     return None, hist, own
 
